@@ -270,6 +270,14 @@ def r2_order(ctx):
                 d = f"ranking[{N.key(pre.slice) if isinstance(pre, ast.Subscript) else '?'}] + perm({pos}) + ranking[{N.key(suf.slice) if isinstance(suf, ast.Subscript) else '?'}]"
     ctx.check(good, f, f.node, "expand_tied_ballot replaces position i by one permutation of its members, in place", d,
               f"expansion is `{d}`; documented prefix [:i] + singleton permutation of position i + suffix [i+1:]")
+    # ... and a ballot is handed back as it is exactly when no position holds a tie
+    pmx = astx.parents(f.node)
+    Nx = Normalizer(f.node, inline=False, int_atoms=lambda a: True)
+    asis = [r for r in astx.walk_own(f.node) if isinstance(r, ast.Return) and isinstance(r.value, ast.List) and len(r.value.elts) == 1 and astx.is_name(r.value.elts[0], f.params[0])]
+    want = literals(Normalizer(None, inline=False, int_atoms=lambda a: True).conj([(ast.parse(f"all(len(s) == 1 for s in {f.params[0]}.ranking)", mode="eval").body, True)]))
+    got = [literals(Nx.conj(astx.path_condition(f.node, r, pmx, carried=False))) for r in asis]
+    ctx.check_shape(len(asis) == 1 and got[0] == want, f, asis[0] if asis else f.node, "expand_tied_ballot returns an untied ballot unchanged, and only an untied one", str(got[:1]),
+                    f"the ballot is returned as it is under {got[:1]}; documented: when every position is a singleton")
     # add_missing: missing candidates appended as ONE last group, only when there are any
     f = prog.find_func("add_missing_cands")
     good = False
@@ -645,6 +653,7 @@ _RC_SKIP = """    scrubbed_ballots = list(ballots)
 """
 _RC_REGION = ("    scrubbed_ballots = [Ballot()] * len(ballots)\n", "        new_ranking = []\n        new_scores = {}\n        if ballot.ranking:\n            for s in ballot.ranking:\n                new_s = []")
 FAULTS = [
+    ("expand returns the ballot as it is unless every position is a singleton (negated)", [(UT, "    if all(len(s) == 1 for s in ballot.ranking):\n        return [ballot]", "    if all(len(s) != 1 for s in ballot.ranking):\n        return [ballot]")], "C12.R2"),
     ("untouched ballots skipped, blank ones too (seeded C12-r2-1)", [(UT, _RC_REGION, _RC_SKIP % "set(removed).isdisjoint({c for s in ballot.ranking or () for c in s}.union(ballot.scores or ()))")], "C12.R4"),
     ("add_missing keeps a ballot with as many mentions as candidates", [(UT, "            raise TypeError(\"Ballots must have rankings.\")\n        else:\n            b_cands = [c for s in ballot.ranking for c in s]", "            raise TypeError(\"Ballots must have rankings.\")\n        elif sum(len(s) for s in ballot.ranking) == len(candidates):\n            new_ballots[i] = ballot\n        else:\n            b_cands = [c for s in ballot.ranking for c in s]")], "C12.R2"),
     ("remove keeps the removed", [(UT, "                    if c not in removed:\n                        new_s.append(c)", "                    if c in removed:\n                        new_s.append(c)")], "C12.R1"),
